@@ -40,6 +40,14 @@ HeightT == [b \in {"B1", "B2", "B3"} |-> IF b = "B3" THEN 2 ELSE 1]
 CpListsT == {<<C("B1", 0)>>, <<C("B1", 2)>>, <<C("B2", 1)>>, <<C("B3", 0)>>, <<C("B1", 1), C("B3", 3)>>, <<C("B2", 0), C("B1", 3)>>}
 MainListsT == {<<"B1">>, <<"B2">>, <<"B1", "B3">>, <<"B2", "B3">>}
 
+\* reorg (quick and thorough): two competing blocks on each of two heights; SaveChainStatus with one and with two
+\* main-chain headers (both orders), so that a two-block reorganisation re-points both heights after warm reads
+BlocksR == <<"B1", "B2", "B3", "B4">>
+HeightR == [b \in {"B1", "B2", "B3", "B4"} |-> IF b \in {"B3", "B4"} THEN 2 ELSE 1]
+CpListsR == {<<C("B1", 0)>>}
+MainListsR == {<<"B1", "B3">>, <<"B2", "B4">>, <<"B4", "B2">>, <<"B2">>, <<"B3">>}
+ReadsR == {"getmain", "getstatus"}
+
 \* deep: one block, one checkpoint, long alternations of saves and reads
 BlocksD == <<"B1">>
 HeightD == [b \in {"B1"} |-> 1]
